@@ -148,6 +148,8 @@ package dns
 //@   ensures first: len(s) > 0 && n > 0 && i == 0 && !start ==> nsep(s, len(s)-1) + 1 == n
 //@   ensures over:  len(s) > 0 && n > 0 && start ==> i == 0 && nsep(s, len(s)-1) + 1 < n
 //@   ensures rng:   0 <= i && i <= len(s)
+// the root name has no labels (CountLabel(".") == 0): any step to the left overshoots
+//@   ensures rootover: isdot(s) && n > 0 ==> i == 0 && start
 //@   loop 1 invariant 0-1 <= l && l <= len(s)-1 && 0 < n && n <= old(n) && (s[len(s)-1] == '.' ==> l <= len(s)-2)
 //@   loop 1 invariant cnt: old(n) - n == nsep(s, len(s)-1) - nsep(s, l+1)
 //@   loop 1 decreases l + 1
